@@ -74,7 +74,7 @@ def judge(sig, what, addr, exp):
 def gen_addr(tier):
     return st.fixed_dictionaries({
         "k": st.one_of(S.scalars(), st.sampled_from(LZ_KEYS), st.sampled_from(HZ_KEYS)), "testnet": st.booleans(),
-        "form": st.sampled_from(["prv", "pub"]),
+        "form": st.sampled_from(["prv", "pub", "pub-uncompressed"]),
         "order": st.permutations(KINDS + ["pk:p2pkh:c", "pk:p2pkh:u", "pk:p2wpkh:c", "pk:h160:c", "pk:h160:u"]),
     })
 
@@ -86,6 +86,8 @@ def check_addr(case, ctx):
     exp = expected(pt, testnet)
     if case["form"] == "prv":
         node = Prv(key=k.to_bytes(32, "big"), chain_code=b"\x00" * 32, testnet=testnet)
+    elif case["form"] == "pub-uncompressed":
+        node = Pub(key=secp.ser_u(pt), chain_code=b"\x00" * 32, testnet=testnet)   # still the same public key
     else:
         node = Pub(key=secp.ser_c(pt), chain_code=b"\x00" * 32, testnet=testnet)
     w = BaseWallet(master=node, testnet=testnet)
@@ -210,6 +212,18 @@ def check_hash(case, ctx):
     st_, got = call(helper.hash160, x)
     if st_ == "exc" or got != want:
         raise Violation("C05/hash/hash160", "hash160 of %d bytes = %r, expected %s" % (n, got, want.hex()))
+    # a caller that reuses one mutable buffer
+    if n >= 1:
+        buf = bytearray(x)
+        st_, h1 = call(helper.hash160, buf)
+        if st_ == "ok":
+            buf[0] ^= 0xFF
+            st_, h2 = call(helper.hash160, buf)
+            if st_ == "exc" or h1 != want or h2 != hashes.hash160(bytes(buf)):
+                raise Violation("C05/hash/hash160-reused-buffer", "hash160 of a reused bytearray (%d bytes) after it was "
+                                "modified returned the digest of other contents" % n)
+        else:
+            ctx.count("hash160-refuses-bytearray (not judged)")
     for name, f, w in (("sha256", helper.sha256, hashlib.sha256(x).digest()),
                        ("hash256", helper.hash256, hashlib.sha256(hashlib.sha256(x).digest()).digest())):
         st_, got = call(f, x)
